@@ -14,6 +14,9 @@ var skipTable = []skipEntry{
 	{Fn: "common-lisp:do", Raw: 1, Args: []string{"*", "@list|@dotted|@values0|@values2"}, Finding: "do-nonlist-end-test"},
 	{Fn: "common-lisp:do*", Raw: 2, Args: []string{"*", "*"}, Finding: "do-nonlist-end-test"},
 	{Fn: "common-lisp:do*", Raw: 1, Args: []string{"*", "@list|@dotted|@values0|@values2"}, Finding: "do-nonlist-end-test"},
+	// (expt 3 4611686018427387904): the exact integer power is computed by
+	// repeated multiplication with no bound on the size of the result
+	{Fn: "common-lisp:expt", Args: []string{"*", "big62"}, Finding: "expt-huge-exponent"},
 	// (read-line <closed string stream>) spins for ever
 	{Fn: "common-lisp:read-line", Args: []string{"closed-stream"}, Finding: "read-line-closed-stream"},
 }
